@@ -115,6 +115,18 @@ def audit(prop):
         obl = [o for o in obl if o['theorem'] not in res]
         if not obl:
             return res, log
+    if tier() == 'thorough':
+        # independent re-check of the compiled declarations by the toolchain's external checker
+        for m in list(mods):
+            rc_, out_ = lake(['env', 'leanchecker', m], timeout=3600)
+            if rc_ != 0:
+                for o in obl:
+                    if o.get('module', 'PyCliffordModel.Properties.' + prop) == m:
+                        res[o['theorem']] = dict(o, ok=False, axioms=[], why='leanchecker rejected module %s: %s' % (m, out_[-300:]))
+                mods.remove(m)
+        obl = [o for o in obl if o['theorem'] not in res]
+        if not obl:
+            return res, log
     src = ''.join('import %s\n' % m for m in mods) + ''.join('#print axioms %s\n' % o['theorem'] for o in obl)
     tmp = os.path.join(LEAN, '.lake', 'audit_%s_%d.lean' % (prop, os.getpid()))
     open(tmp, 'w').write(src)
